@@ -48,7 +48,7 @@ var flows = []*Flow{
 	{CredPairs: true, Name: "record-tcp", Mode: "record", Proto: "tcp", Pause: true, Quick: true},
 	{Name: "record-udp", Mode: "record", Proto: "udp", Quick: false},
 	{Name: "record-auto", Mode: "record", Proto: "auto", Quick: true},
-	{Name: "backchannel-tcp", Mode: "play", Proto: "tcp", BackChannel: true, Quick: false},
+	{Name: "backchannel-tcp", Mode: "play", Proto: "tcp", BackChannel: true, Quick: true},
 }
 
 func flowByName(n string) *Flow {
@@ -427,6 +427,9 @@ func runCase(cs Case, mark func(step string)) *ExecResult {
 		})
 		step("setup", func() error { return c.SetupAll(desc.BaseURL, desc.Medias) })
 		if step("play", func() error { _, err := c.Play(nil); return err }) {
+			// the media the server sends right after its PLAY answer is processed by the client's reader
+			// before the flow goes on (no virtual time passes)
+			x.idle("media", 0)
 			if flow.Blackhole {
 				x.idle("idle", 4)
 			}
